@@ -143,6 +143,18 @@ static Result run_sky(Cur &c, long kind) {
     long offdiag = 0; for (long i = 0; i < n; ++i) for (auto j = A.ptr[i]; j < A.ptr[i+1]; ++j) if (A.col[j] != i && !amgcl::math::is_zero(A.val[j])) ++offdiag;
     r.nontrivial = n >= 2 && offdiag >= 1;
     r.tag(N == 1 ? "sky_scalar" : "sky_block"); r.tag(kind == 0 ? "ord_cmk" : "ord_given");
+    if (N > 1) {   // block inputs on which a swapped product order / a structurally symmetrised profile would show
+        bool noncomm = false, nondom = false, patns = false; std::set<std::pair<long,long>> pos; auto ab = [](const Q &a) { return a.v < 0 ? -a : a; };
+        for (long i = 0; i < n; ++i) for (auto j = A.ptr[i]; j < A.ptr[i+1]; ++j) if (!amgcl::math::is_zero(A.val[j])) pos.insert({i, (long)A.col[j]});
+        for (auto &ij : pos) if (!pos.count({ij.second, ij.first})) patns = true;
+        for (size_t p = 0; p < A.val.size() && !noncomm; ++p) for (size_t q = p + 1; q < A.val.size(); ++q) {
+            V pq = A.val[p] * A.val[q], qp = A.val[q] * A.val[p]; bool same = true;
+            for (int a = 0; a < N; ++a) for (int b2 = 0; b2 < N; ++b2) if (!qeq(VT<V>::at(pq, a, b2), VT<V>::at(qp, a, b2))) same = false;
+            if (!same) { noncomm = true; break; } }
+        for (long i = 0; i < n; ++i) for (auto j = A.ptr[i]; j < A.ptr[i+1]; ++j) if (A.col[j] == i)
+            for (int a = 0; a < N; ++a) { Q off(0); for (int b2 = 0; b2 < N; ++b2) if (b2 != a) off += ab(VT<V>::at(A.val[j], a, b2)); if (!(ab(VT<V>::at(A.val[j], a, a)) > off)) nondom = true; }
+        if (noncomm) r.tag("blk_noncommuting"); if (nondom) r.tag("blk_pivot_nondominant"); if (patns) r.tag("blk_pattern_nonsym");
+    }
     std::unique_ptr<Sky> S;
     try { S.reset(new Sky(Ac)); }
     catch (const std::exception &) {
@@ -561,6 +573,18 @@ static void emit_skyb(Rng &rng, std::vector<std::string> &lines, long n, const s
         for (long i = 0; i < N; ++i) S[i][i] += Q::frac(rng.range(1, 3), 2);
     } else if (mode == 0) {
         for (long i = 0; i < N; ++i) { Q s(0); for (long j = 0; j < N; ++j) if (i != j && present(i / 2, j / 2) && rng.coin(3, 4)) { S[i][j] = rng.rat_nz(4); s += qabs(S[i][j]); } S[i][i] = s + Q::frac(rng.range(1, 4), 2); }
+    } else if (mode == 3) {   // non-commuting, non-symmetric pivot blocks that are NOT diagonally dominant (vanishing (0,0) entry: row exchange
+        // inside math::inverse; shear: strongly non-normal; rotation-like; general), random off-diagonal blocks on the (structurally
+        // non-symmetric) block pattern as given: a swapped product order in factorize()/operator() changes the result on these
+        for (long I = 0; I < n; ++I) {
+            Q s = Q(rng.range(3, 9)), a, b, c, d; int f = (int)rng.range(0, 3);
+            if (f == 0)      { a = Q(0); b = s; c = Q(rng.range(1, 4)) - s - s; d = rng.coin() ? Q(0) : Q(1); }
+            else if (f == 1) { a = s; b = Q(rng.range(-9, 9)) * s; c = Q(0); d = Q::frac(rng.range(1, 5), 2); }
+            else if (f == 2) { a = Q(rng.range(1, 3)); b = -s; c = s; d = Q(rng.range(-2, 2)); }
+            else             { a = rng.rat_nz(4); b = rng.rat_nz(4) * s; c = rng.rat_nz(4); d = rng.rat_nz(4) * s; }
+            S[2*I][2*I] = a; S[2*I][2*I+1] = b; S[2*I+1][2*I] = c; S[2*I+1][2*I+1] = d;
+            for (long J = 0; J < n; ++J) if (J != I && present(I, J)) for (int p = 0; p < 2; ++p) for (int q = 0; q < 2; ++q) if (rng.coin(3, 4)) S[2*I+p][2*J+q] = rng.rat_nz(4);
+        }
     } else {             // mode 2: a zero pivot block: block row/col copies so that a Schur complement block vanishes, or a missing diagonal block
         for (long i = 0; i < N; ++i) { Q s(0); for (long j = 0; j < N; ++j) if (i != j && present(i / 2, j / 2)) { S[i][j] = rng.rat_nz(4); s += qabs(S[i][j]); } S[i][i] = s + Q(1); }
         long z = rng.range(0, n - 1); for (int a = 0; a < 2; ++a) for (int b = 0; b < 2; ++b) S[2*z+a][2*z+b] = Q(0);
@@ -631,7 +655,7 @@ static void generate_inner(Rng &rng, const Opts &o, std::vector<std::string> &li
             }
             if (n <= 3 || rng.coin(1, 8)) emit_sky(rng, lines, pattern_matrix(rng, n, pat, 2), (int)rng.range(0, 2));
             if (sym && (n <= 3 || rng.coin(1, 8))) emit_sky(rng, lines, pattern_matrix(rng, n, pat, 3), (int)rng.range(0, 2));
-            if (n <= 2 || (n == 3 && (T || rng.coin(1, 4))) || (n == 4 && rng.coin(1, 64))) for (int mode = 0; mode < 3; ++mode) emit_skyb(rng, lines, n, pat, mode, (int)rng.range(0, 2));
+            if (n <= 2 || (n == 3 && (T || rng.coin(1, 4))) || (n == 4 && rng.coin(1, 64))) for (int mode = 0; mode < 4; ++mode) emit_skyb(rng, lines, n, pat, mode, (int)rng.range(0, 2));
             // explicitly stored exact zeros at absent positions (inside and outside the profile), all four orderings
             if (n >= 2 && (n <= 3 || rng.coin(1, 4))) for (int rep = 0; rep < 2; ++rep) {
                 int mode = rng.coin(1, 3) ? 1 : (rng.coin(1, 4) ? 2 : 0);
@@ -673,6 +697,7 @@ static void generate_inner(Rng &rng, const Opts &o, std::vector<std::string> &li
         }
         if (k % 3 == 1) { long nb = rng.range(2, T ? 8 : 5); emit_skyb(rng, lines, nb, random_pattern(rng, nb, (int)rng.range(10, 50), rng.coin(), rng.range(1, 2)), (int)rng.range(0, 1), (int)rng.range(0, 2), (int)rng.range(10, 60)); }
         if (k % 3 == 0) { long nb = rng.range(2, T ? 10 : 6); emit_skyb(rng, lines, nb, random_pattern(rng, nb, (int)rng.range(10, 60), rng.coin(), rng.range(1, 2)), (int)rng.range(0, 9) == 0 ? 2 : (int)rng.range(0, 1), (int)rng.range(0, 2)); }
+        if (k % 3 == 2) { long nb = rng.range(2, T ? 8 : 5); emit_skyb(rng, lines, nb, random_pattern(rng, nb, (int)rng.range(15, 60), false, rng.range(1, 2)), 3, (int)rng.range(0, 2), rng.coin(1, 3) ? (int)rng.range(10, 40) : 0); }
         // Cuthill-McKee on larger patterns (values irrelevant): non-symmetric, disconnected, empty rows
         { long nc = rng.range(1, T ? 60 : 30); Mat P = gen_sparse(rng, nc, nc, (int)rng.range(0, 30));
           if (rng.coin(1, 3)) P = pattern_matrix(rng, nc, random_pattern(rng, nc, (int)rng.range(3, 30), rng.coin(), rng.range(1, 4)), 2);
